@@ -59,6 +59,22 @@ var (
 	sharedCT, sharedCTSnap     []byte
 )
 
+// keyLensWrong: the seven keys of an SA derived for a suite have the lengths that suite prescribes, whatever other suites the process
+// has derived keys for before (RFC 7296 2.14; HMAC key = hash output)
+func keyLensWrong(o J, encrBits int, integ, prfn string) string {
+	hl := map[string]int{"md5": 16, "sha1": 20, "sha256": 32}
+	if e, _ := o["err"].(bool); e {
+		return fmt.Sprintf("key derivation for AES-%d / %s / prf %s failed", encrBits, integ, prfn)
+	}
+	want := map[string]int{"sk_d": hl[prfn], "sk_ai": hl[integ], "sk_ar": hl[integ], "sk_ei": encrBits / 8, "sk_er": encrBits / 8, "sk_pi": hl[prfn], "sk_pr": hl[prfn]}
+	for k, n := range want {
+		if v, ok := o[k].(Oct); ok && len(v) != n {
+			return fmt.Sprintf("AES-%d / %s / prf %s: %s has %d octets, the suite prescribes %d", encrBits, integ, prfn, k, len(v), n)
+		}
+	}
+	return ""
+}
+
 var encrNames2 = map[int]string{128: "aes-cbc-128", 192: "aes-cbc-192", 256: "aes-cbc-256"}
 
 // groupPrime: the modulus of group 2 (i = 0) / 14 (i = 1), recovered from the library-independent identity 2^n mod p = 2^n - p
@@ -75,6 +91,12 @@ func groupPrime(i int) *big.Int {
 		}
 	})
 	return groupPrimes[i]
+}
+
+func scribbleOct(b []byte) {
+	for i := range b {
+		b[i] = ^b[i]
+	}
 }
 
 func digest(v any) string {
@@ -173,7 +195,30 @@ func runOp(kind string, g int, seed int64, i int) (out string) {
 				ext = append(ext, octOf(append(x.NotificationData, byte(g))))
 			}
 		}
-		return digest(J{"msg": projMsg(m), "ext": ext})
+		pm := projMsg(m)
+		// ... and it edits what it decoded IN PLACE (its own memory by now): every octet string of every payload, down to the values of
+		// variable-length transform attributes
+		for _, p := range m.Payloads {
+			switch x := p.(type) {
+			case *message.Nonce:
+				scribbleOct(x.NonceData)
+			case *message.KeyExchange:
+				scribbleOct(x.KeyExchangeData)
+			case *message.Notification:
+				scribbleOct(x.NotificationData)
+				scribbleOct(x.SPI)
+			case *message.SecurityAssociation:
+				for _, pr := range x.Proposals {
+					scribbleOct(pr.SPI)
+					for _, c := range []message.TransformContainer{pr.EncryptionAlgorithm, pr.PseudorandomFunction, pr.IntegrityAlgorithm, pr.DiffieHellmanGroup, pr.ExtendedSequenceNumbers} {
+						for _, t := range c {
+							scribbleOct(t.VariableLengthAttributeValue)
+						}
+					}
+				}
+			}
+		}
+		return digest(J{"msg": pm, "ext": ext})
 	case "reject_then_accept":
 		// one owner working sequentially on its own SA: a datagram that cannot be unprotected (ciphertext not a block multiple,
 		// cut short, altered), then at once the genuine one -- refused and accepted exactly as when each is handled alone
@@ -317,6 +362,9 @@ func runOp(kind string, g int, seed int64, i int) (out string) {
 		o := actIkeDerive(e, J{"suite": J{"encr": []int{128, 192, 256}[g%3], "integ": []string{"md5", "sha1", "sha256"}[(g/3)%3], "prf": []string{"md5", "sha1", "sha256"}[(g/9)%3]},
 			"grp": []int{2, 14}[g%2], "via": []string{"str", "transform"}[i%2], "nonce": fillPattern("seeded", []int{32, 64, 96, 200, 512}[(g+i)%5], g), "secret": fillPattern("seeded", 256, g+1),
 			"spii": be(uint64(g), 8), "spir": be(uint64(g+1), 8), "probe": Oct{1, 2, 3}})
+		if why := keyLensWrong(o, []int{128, 192, 256}[g%3], []string{"md5", "sha1", "sha256"}[(g/3)%3], []string{"md5", "sha1", "sha256"}[(g/9)%3]); why != "" {
+			return "absolute: " + why
+		}
 		return digest(o)
 	case "derive_arena":
 		// the nonces of all goroutines are neighbouring regions of ONE buffer the callers share read-only (each slice has
@@ -497,6 +545,9 @@ func runOp(kind string, g int, seed int64, i int) (out string) {
 			o := actIkeDerive(e, J{"name": "S", "suite": J{"encr": []int{128, 192, 256}[(g+k)%3], "integ": []string{"md5", "sha1", "sha256"}[(g/3+k)%3], "prf": []string{"md5", "sha1", "sha256"}[(g+2*k)%3]},
 				"grp": 14, "via": []string{"str", "transform"}[k%2], "nonce": fillPattern("seeded", []int{16 + k, 80 + k, 130, 300}[k%4], g), "secret": fillPattern("seeded", 128, g+k),
 				"spii": be(uint64(g), 8), "spir": be(uint64(k), 8)})
+			if why := keyLensWrong(o, []int{128, 192, 256}[(g+k)%3], []string{"md5", "sha1", "sha256"}[(g/3+k)%3], []string{"md5", "sha1", "sha256"}[(g+2*k)%3]); why != "" {
+				return "absolute: " + why
+			}
 			c := actDeriveChild(e, J{"sa": "S", "nonce": fillPattern("seeded", 8+k, g), "encr": 128, "integ": []string{"none", "md5", "sha1", "sha256"}[k%4]})
 			outs = append(outs, o["sk_d"], o["sk_pr"], c["er"], c["ar"])
 		}
@@ -568,7 +619,9 @@ func raceMain(argv []string) int {
 	// the shared read-only input
 	{
 		m, _ := buildMsg(J{"ispi": be(1, 8), "rspi": be(2, 8), "maj": 2, "min": 0, "xt": 34, "flags": 8, "mid": be(0, 4), "payloads": []any{
-			J{"k": "SA", "props": []any{J{"num": 1, "proto": 1, "spi": Oct{}, "tr": []any{J{"c": 1, "tt": 1, "tid": 12, "attr": "tv", "at": 14, "av": 256, "avl": Oct{}}}}}},
+			J{"k": "SA", "props": []any{J{"num": 1, "proto": 1, "spi": Oct{}, "tr": []any{J{"c": 1, "tt": 1, "tid": 12, "attr": "tv", "at": 14, "av": 256, "avl": Oct{}},
+				J{"c": 1, "tt": 1, "tid": 20, "attr": "tlv", "at": 300, "av": 0, "avl": Oct{9, 8, 7, 6, 5}}, J{"c": 2, "tt": 2, "tid": 5, "attr": "none", "at": 0, "av": 0, "avl": Oct{}}}},
+				J{"num": 2, "proto": 3, "spi": Oct{1, 2, 3, 4}, "tr": []any{J{"c": 1, "tt": 1, "tid": 12, "attr": "tv", "at": 14, "av": 128, "avl": Oct{}}}}}},
 			J{"k": "KE", "grp": 14, "data": fillPattern("seeded", 256, 1)}, J{"k": "NONCE", "data": fillPattern("seeded", 32, 2)},
 			J{"k": "N", "proto": 0, "ntype": 16388, "spi": Oct{}, "data": fillPattern("seeded", 20, 3)}}})
 		sharedWire, _ = m.Encode()
